@@ -1,14 +1,14 @@
 """Binding self-test for Trace_Maps (stateful): a faithful trace of map actions is accepted; corrupting one observed
 state (map.set appended a second entry for a key that is == to a stored one) is rejected at that event; dropping one
 step makes the following step inexplicable (the model state no longer matches); an ordered-equality answer is accepted
-only when the deviation mapeq_ordered is listed."""
+only when the deviation mapeq_ordered is listed; a multi-key remove that leaves one of the listed keys is rejected."""
 import json, os, sys
 ROOT = os.path.dirname(os.path.dirname(os.path.dirname(os.path.abspath(__file__))))
 sys.path.insert(0, ROOT)
 from vlib import tlc
 
-def op(f, k="", v=0, m2=()):
-    return dict(f=f, k=k, v=v, m2=list(m2))
+def op(f, k="", v=0, m2=(), ks=()):
+    return dict(f=f, k=k, v=v, m2=list(m2), ks=list(ks))
 def E(k, v): return {"k": k, "v": v}
 def R(k, n=0): return {"k": k, "n": n}
 def step(case, o, r, st, devs=()):
@@ -26,14 +26,19 @@ def run():
         step(0, op("remove", k="#f00"), R("none"), [E("n:1", 9), E("s:a", 8)]),
         step(0, op("eq", m2=[E("a", 8), E("1", 9)]), R("bool", 0), [E("n:1", 9), E("s:a", 8)], devs=["mapeq_ordered"]),
         dict(ev="failed", case=1, ops=[op("literal", m2=[E("qa", 1), E("a", 2)])], k="err"),
+        dict(ev="reset", case=2),
+        step(2, op("literal", m2=[E("a", 1), E("b", 2), E("c", 3)]), R("none"), [E("s:a", 1), E("s:b", 2), E("s:c", 3)]),
+        step(2, op("remove-all", ks=["qc", "x", "sa"]), R("none"), [E("s:b", 2)]),       # several keys, not in map order
     ]
     bad = [dict(e) for e in good]
     bad[2] = step(0, op("set", k="1.0", v=9), R("none"), [E("n:1", 1), E("s:a", 2), E("n:1", 9)])
     dropped = [e for i, e in enumerate(good) if i != 4]          # the merge is missing
     nodev = [dict(e) for e in good]
     nodev[6] = dict(good[6], devs=[])
+    stale = [dict(e) for e in good]
+    stale[10] = step(2, op("remove-all", ks=["qc", "x", "sa"]), R("none"), [E("s:a", 1), E("s:b", 2)])   # a key listed after a later one stays
     res = []
-    for name, evs in (("good", good), ("bad", bad), ("dropped", dropped), ("nodev", nodev)):
+    for name, evs in (("good", good), ("bad", bad), ("dropped", dropped), ("nodev", nodev), ("stale", stale)):
         p = os.path.join(work, name + ".ndjson")
         with open(p, "w") as f:
             for e in evs:
@@ -42,4 +47,4 @@ def run():
         res.append((r["accepted"], r["unmatched"]))
     import shutil; shutil.rmtree(work, ignore_errors=True)
     # dropped: the state observed after remove (s:a -> 8) is not what the model reaches without the merge (s:a -> 2): event 5
-    return res == [(True, None), (False, 3), (False, 5), (False, 7)]
+    return res == [(True, None), (False, 3), (False, 5), (False, 7), (False, 11)]
